@@ -1788,6 +1788,19 @@ class ISLaSolver:
 
             new_tree = result.tree.substitute(substitution)
 
+            for orig, repl in evaluation_result.result.items():
+                # `DerivationTree.substitute` skips replacements containing the tree
+                # they replace. This is what, e.g., `count` returns for the whole tree
+                # if the start symbol is recursive (the tree is embedded below a new
+                # root); the solution must not get lost.
+                if (
+                    isinstance(orig, DerivationTree)
+                    and repl.id != orig.id
+                    and repl.find_node(orig) is not None
+                    and new_tree.find_node(orig) == ()
+                ):
+                    new_tree = repl
+
             def moves_nodes(orig: DerivationTree, repl: DerivationTree) -> bool:
                 repl_paths = {node.id: path for path, node in repl.paths()}
                 return any(
